@@ -360,4 +360,22 @@ PROPS = {
         "require_strata": {"both": ["precedence", "macro:brace", "macro:angle", "macro:plain", "macro:no-dollar", "macro-unicode"]},
         "min_evals": {"quick": 200_000, "thorough": 10_000_000},
     },
+    "C05": {
+        "quick": [phase(16, 1.0, 90)],
+        "thorough": [phase(16, 1.0, 1500)],
+        "rule": ("cases = the C01 generator's model values; (A) the spec-derived Hayson reference writer (harness/src/refjson.rs) writes a "
+                 "document with members of every object in random order (incl. _kind anywhere), '_kind':'dict' present/absent, grid meta "
+                 "absent / {} / with ver, column meta absent/present, tz present/absent for UTC, 'Z' vs '+00:00', unit-less numbers plain or "
+                 "as {_kind:number}, integers as 5 / 5.0 / 5e0, exponent forms, \\uXXXX (incl. surrogate pairs) and \\/ escapes, random "
+                 "whitespace; libhaystack must decode it (from_str / from_slice / from_value in turn) to the value; (B) libhaystack's own "
+                 "document must be accepted by the strict reference reader (right _kind, only the field names val unit dis tz lat lng type "
+                 "meta cols rows name) and denote the value; plus ALL 6 member orders of the five 3-member kinds through all 3 entry points"),
+        "assumptions": [WELLFORMED, "the Hayson mapping as transcribed in DESIGN Appendix B is the trusted base",
+                        "'ver' is the reserved version tag of grid meta", "NaN/INF are spelled {_kind:number,val:'NaN'|'INF'|'-INF'}"],
+        "require_strata": {"both": ["spelling:member-order", "spelling:kind-dict-present", "spelling:meta-absent", "spelling:meta-with-ver",
+                                    "spelling:empty-col-meta-present", "spelling:tz-present-for-utc", "spelling:zero-offset-numeric",
+                                    "spelling:number-exponent", "spelling:integer-as-decimal", "spelling:unitless-number-as-object",
+                                    "spelling:esc-uXXXX", "member-orders", "grid:meta", "grid:colmeta", "num:nan", "num:inf"]},
+        "min_evals": {"quick": 50_000, "thorough": 1_000_000},
+    },
 }
